@@ -107,11 +107,11 @@ func distSeg(a, b, p orb.Point) float64 {
 	return dist(orb.Point{a[0] + t*dx, a[1] + t*dy}, p)
 }
 
-var scales = []float64{1024, 1.0 / 64}
+var scales = []float64{1024, 1.0 / (1 << 40), 1.0 / 64} // large magnitudes, far below any absolute epsilon, small
 
 func main() {
 	r := ev.New("C12", "exploration")
-	scales = scales[:ev.Pick(r, 1, 2)]
+	scales = scales[:ev.Pick(r, 2, 3)]
 	r.Rule = "every vertex list of 0..N points on the 4x4 integer grid (repeated, collinear, coincident endpoints; the closed ones double as rings) x every threshold of a set that contains 0, every realisable critical value on the grid (point-segment distances for Douglas-Peucker, point-point distances for radial, half-integer areas for Visvalingam), the midpoints between consecutive critical values and one value above the largest - i.e. all thresholds up to order-equivalence; an execution is one vertex list (all simplifiers and thresholds inside); non-trivial = at least one simplifier dropped a vertex and at least one kept an interior vertex"
 	r.Assume = []string{
 		"simplifiers work in place (documented), inputs are cloned for every run",
